@@ -15,13 +15,22 @@ def optInt (s : String) (base : Int) : Int := if s == "-" then 0 else base + int
 /-- the arbitrary non-zero instant standing for `monotime.Now()` of a `timer` op -/
 def now0 : Int := 1000000000000000000
 
-def callerOf : String → Option (CallKind × Nat)
-  | "read" => some (.read, 0) | "readuni" => some (.read, 1) | "write" => some (.write, 2)
-  | "writesmall" => some (.write, 2)
-  | "accept" => some (.acceptStream, 3) | "acceptuni" => some (.acceptStream, 4)
-  | "open" => some (.openStreamSync, 5) | "openuni" => some (.openStreamSync, 6) | "opennow" => some (.openStreamSync, 5)
-  | "senddgram" => some (.sendDatagram, 8)
-  | n => if n.startsWith "rcvdgram" then some (.receiveDatagram, 7) else none
+/-- caller name → (kind, waitable object); "accept2", "open3", … are further callers on the SAME object,
+    "read2" / "write2" use a second stream -/
+def callerOf (name : String) : Option (CallKind × Nat) :=
+  let base := (name.dropEndWhile Char.isDigit).toString
+  match name with
+  | "read2" => some (.read, 9)
+  | "write2" => some (.write, 10)
+  | _ =>
+    match base with
+    | "read" => some (.read, 0) | "readuni" => some (.read, 1) | "write" => some (.write, 2)
+    | "writesmall" => some (.write, 2)
+    | "accept" => some (.acceptStream, 3) | "acceptuni" => some (.acceptStream, 4)
+    | "open" => some (.openStreamSync, 5) | "openuni" => some (.openStreamSync, 6) | "opennow" => some (.openStreamSync, 5)
+    | "senddgram" => some (.sendDatagram, 8)
+    | "rcvdgram" => some (.receiveDatagram, 7)
+    | _ => none
 
 def retName (specs : List Spec) : Ret → String
   | .ok => "nil" | .err c => canonCause specs c | .pending => "BLOCKED"
@@ -53,8 +62,8 @@ def closeStep (w : List String) (impl : String) : StepOut := Id.run do
     let routing := routingOf persp (b sfp) ce
     let nids := if b cl then 1 else 2
     -- blocked callers and later calls, on the Blocked model
-    let sendFull := blockedL.contains "senddgram"
-    let res : List Res := (List.range 9).map fun i =>
+    let sendFull := blockedL.any (·.startsWith "senddgram")
+    let res : List Res := (List.range 11).map fun i =>
       if i == 7 then { avail := qd } else if i == 8 then { avail := if sendFull then 0 else 32 } else {}
     let sys0 : Sys := { res := res }
     let (sys1, r1) := sys0.run (mkSteps blockedL 0)
@@ -138,7 +147,7 @@ def closeStep (w : List String) (impl : String) : StepOut := Id.run do
         else if ce.immediate then "immediate" else "internal"
     let rt := match routing with | .replaceRemote => "remote" | .removeAll => "removeAll" | .sendAndReplace f => if f.isApp then "sendApp" else "sendTr"
     let tags := [s!"class:{branch}", s!"routing:{rt}"] ++ (if specs.length > 1 then ["multi"] else [])
-      ++ (if blockedL.length ≥ 4 then ["blocked≥4"] else []) ++ (if b later then ["later"] else [])
+      ++ (if blockedL.length ≥ 4 then ["blocked≥4"] else []) ++ (if blockedL.any (fun n => n.back.isDigit) then ["same-kind×n"] else []) ++ (if b later then ["later"] else [])
       ++ (if first.wrapped then ["wrapped"] else []) ++ (if b cl && !b sfp then ["client-nopacket"] else [])
     return { model := model, tags := tags, fails := fails }
   | _ => return { model := "bad-op" }
